@@ -63,3 +63,31 @@ Theorem C01_encoder_final_closed : forall U P c evs st S ex,
   enc_final_ok U st S ex = true -> one_per_nameb U S = true ->
   closedb U P (e_db st) S ex = true.
 Proof. exact enc_final_closed. Qed.
+
+(* ---- what the encoder does with a clause besides storing it (Async/EncoderWatch.v: model of the
+   clause constructors of clause.rs and their call sites in encoding.rs; the reported conflicts and the
+   registered assertions of every run must equal the model's) ---- *)
+From Resolvo Require Import Async.EncoderWatch.
+
+(* no clause goes onto the watch lists with both watched literals false unless it is reported as
+   conflicting: a clause that is neither watched usefully nor reported can be violated by the final
+   assignment without anybody noticing (F15: Lock clauses, before fix 9d91e23) *)
+Theorem C01_watch_created_ok : forall tr c w1 w2,
+  w_watch (create tr c) = Some (w1, w2) -> w_conflict (create tr c) = false -> forbid_side tr c = true ->
+  lit_false_in tr w1 = false \/ lit_false_in tr w2 = false.
+Proof. exact watch_created_ok. Qed.
+
+(* every clause of the encoder that has no watches is registered as an assertion *)
+Theorem C01_unit_is_asserted : forall tr c,
+  w_watch (create tr c) = None ->
+  match ck c with
+  | KRequires _ _ _ | KConstrains _ _ _ | KLock _ _ | KExcluded _ _ => w_assert (create tr c) <> None
+  | _ => True
+  end.
+Proof. exact unit_is_asserted. Qed.
+
+(* a lock clause whose other candidate is already installed is reported and stays asserted *)
+Theorem C01_late_lock_is_handled : forall tr l o lits,
+  is_true_in tr (VSol o) = true ->
+  let w := create tr (mkCl (KLock l o) lits) in w_conflict w = true /\ w_assert w = Some (VSol o).
+Proof. exact late_lock_is_handled. Qed.
